@@ -403,13 +403,24 @@ func runC10(e *Env) {
 			}
 		}
 	}
+	if e.Thorough {
+		for _, a := range alpha {
+			for _, b := range alpha {
+				for _, c := range alpha {
+					for _, d := range alpha {
+						texts = append(texts, a+b+c+d)
+					}
+				}
+			}
+		}
+	}
 	texts = append(texts, "null", "true", "no", "1e3", "0x10", "2001-01-01", "- a", "? a", "y", "Off", ".inf", "~", "<<", "=", "\t", "a\tb", "\r", "a\r\nb", " ", "\ufeff", "\x7f", strings.Repeat("x", 200), " lead", "trail ", "a: b # c")
 	for _, t := range texts {
 		if t[0] == '\n' || t[0] == '\r' {
 			continue // yaml.v3 (trusted base) does not round-trip a string that starts with a line break; chord text cannot produce one
 		}
 		vals = append(vals, c10Value{Field: "meta-value", Text: t})
-		if e.Thorough || len([]rune(t)) <= 2 || len(t) > 3 {
+		if true {
 			vals = append(vals, c10Value{Field: "meta-key", Text: t})
 		}
 	}
@@ -456,7 +467,7 @@ func runC10(e *Env) {
 		c10PipeEval(e, m, &c)
 		e.R.Trace(1)
 		e.R.NonTrivial(fmt.Sprint("p", i))
-		if e.Thorough || i%5 == 0 {
+		if e.Thorough || i%2 == 0 {
 			cc := pipes[i]
 			cc.Path = "cli"
 			c10PipeEval(e, m, &cc)
